@@ -30,6 +30,11 @@ type ndValue struct {
 	S    string `json:"s,omitempty"`
 }
 
+// ParRunner, when set (by the schedule-replay build), runs Par blocks under the deterministic controller.
+var ParRunner func(fs []func(), sched []int, maxPre int)
+
+var schedule []int
+
 var (
 	mu      sync.Mutex
 	values  []ndValue
@@ -55,6 +60,12 @@ func Load(path string) error {
 		return err
 	}
 	values, pos = doc.ND, 0
+	schedule = nil
+	for _, v := range doc.ND {
+		if v.Kind == "sched" {
+			schedule = append(schedule, int(v.V))
+		}
+	}
 	Failed = nil
 	Reached = map[string]bool{}
 	return nil
@@ -222,6 +233,14 @@ func NCSPosts() []ncsclient.ReceiptPayload { panic("verifnd.NCSPosts is engine-o
 
 // Par runs the functions concurrently. Natively: real goroutines (used under -race).
 func Par(fs ...func()) {
+	if ParRunner != nil && os.Getenv("VERIFND_SCHED") == "1" {
+		mp := 2
+		if os.Getenv("VERIFND_MAXPRE") != "" {
+			fmt.Sscanf(os.Getenv("VERIFND_MAXPRE"), "%d", &mp)
+		}
+		ParRunner(fs, schedule, mp)
+		return
+	}
 	var wg sync.WaitGroup
 	for _, f := range fs {
 		wg.Add(1)
